@@ -400,7 +400,8 @@ def roundtrip_row(rid: t.Any, k: str, obj: t.Any, dec: dict, t_: str = "enc", wi
         f = project(k, obj, wire)
     row = {"id": rid, "t": t_, "k": k, "f": f, "b": bl(wire), "dec": "ok", "b2": [], "f2": {}}
     try:
-        o2 = dec[k](wire)
+        with taps.StepMeter(_PREFIX[0], 400 * len(wire) + 20000):     # a decoder that does not terminate on a valid encoding
+            o2 = dec[k](wire)
         b2 = o2.pack()
         f2 = project(k, o2, wire)
         if k == "pdu" and "sa_pad" in f2 and "sa_pad" in f and len(f2["sa_pad"]) == len(f["sa_pad"]):
@@ -411,9 +412,23 @@ def roundtrip_row(rid: t.Any, k: str, obj: t.Any, dec: dict, t_: str = "enc", wi
             f2["max"] = f["max"]
             f2["refs"] = f["refs"] if len(f2["refs"]) == len(f["refs"]) else f2["refs"]
         row["b2"], row["f2"] = bl(b2), f2
+    except taps.BudgetExceeded:
+        row["dec"] = "error:work_budget_exceeded"
     except Exception as e:  # noqa
         row["dec"] = "error:" + type(e).__name__
+    finally:
+        sys.settrace(None)
     return row
+
+
+_PREFIX = [""]
+
+
+def _set_prefix() -> str:
+    import dpapi_ng
+
+    _PREFIX[0] = os.path.dirname(dpapi_ng.__file__)
+    return _PREFIX[0]
 
 
 def run_decoder(name: str, fn: t.Callable, data: bytes, prefix: str) -> tuple[str, int, str]:
@@ -552,13 +567,18 @@ def calibration_rows(ctx: Ctx, dec: dict) -> list[dict]:
         else:
             row = {"id": rid, "t": "capdec", "k": k, "b": bl(data), "dec": "ok", "f2": {}}
             try:
-                o = dec[k](data)
+                with taps.StepMeter(_PREFIX[0], 400 * len(data) + 20000):
+                    o = dec[k](data)
                 f2 = project(k, o, data)
                 if k == "eptres":       # count fields as on the wire (the decoder does not keep them)
                     f2["num"], f2["count"] = bl(data[20:24]), bl(data[40:48])
                 row["f2"] = f2
+            except taps.BudgetExceeded:
+                row["dec"] = "error:work_budget_exceeded"
             except Exception as e:  # noqa
                 row["dec"] = "error:" + type(e).__name__
+            finally:
+                sys.settrace(None)
             rows.append(row)
     return rows
 
@@ -632,9 +652,7 @@ def _shape_tag(k: str, obj: t.Any, wire: bytes) -> str:
 
 
 def run(ctx: Ctx) -> int:
-    import dpapi_ng
-
-    prefix = os.path.dirname(dpapi_ng.__file__)
+    prefix = _set_prefix()
     loops, epmcases = _tlc_models(ctx)
     dec = decoders()
     g = Gen(ctx.rng)
@@ -753,6 +771,7 @@ def selftest(ctx: Ctx) -> int:
     from ..tracecheck import selftest_expect_reject
 
     dec = decoders()
+    _set_prefix()
     g = Gen(ctx.rng)
     g.listed_protocols_only = True
     good, badrows = [], []
